@@ -584,6 +584,14 @@ func c12TCP(w *simrt.World, via bool) {
 	}
 	c12CheckTunnelClosed(w, r, lb.Closed(), t)
 
+	// Let the peers drain before judging delivery: a byte the relay has written to
+	// a peer's socket counts as received only once that peer's reader task has been
+	// scheduled, and the watchdog's poll instant can coincide with the relay's last
+	// write (same fake instant, main scheduled first). Readers end on the EOF/error
+	// that follows the relay's close; simulated time cannot advance while they are
+	// still runnable.
+	c12Await(w, w.Now()+c12Bound, func() bool { return tasks[0].Done() && tasks[1].Done() })
+
 	// ---- delivery oracle
 	anyReset := app.end == c12EndReset || rem.end == c12EndReset
 	// app -> rem
@@ -960,11 +968,14 @@ func c12UDP(w *simrt.World, via bool) {
 	if t.term {
 		inTime = c12Await(w, t.termAt+c12Bound, r.returned)
 	}
-	appGotAtVerdict := len(appGot)
+	appGotAtVerdict := -1
 	if t.spin {
 		w.Probe("udp.spin")
 	}
 	if !inTime {
+		// a full c12Bound of simulated time has passed since the end of the stream:
+		// everything written to the application socket by then has been read
+		appGotAtVerdict = len(appGot)
 		behaviour := "blocked"
 		switch {
 		case t.spin:
@@ -989,6 +1000,16 @@ func c12UDP(w *simrt.World, via bool) {
 		}
 	}
 	c12CheckTunnelClosed(w, r, ub.Closed(), t)
+
+	// Let the peers drain before judging delivery (see c12TCP): the relay may have
+	// returned at the very instant the watchdog polled, with its last datagram /
+	// final flush still unread in a peer's socket.
+	if r.returned() {
+		c12Await(w, w.Now()+c12Bound, func() bool { return appRd.Done() && remRd.Done() })
+	}
+	if appGotAtVerdict < 0 {
+		appGotAtVerdict = len(appGot)
+	}
 
 	// ---- delivery oracle, tunnel -> application
 	var want [][]byte
